@@ -185,15 +185,50 @@ def wrapper_world(E, st, unique, own_weights, fitted=True, with_base=True, nativ
     ctx["self"] = selfo
     ctx["pre"] = {k: (st.get(v) if isinstance(v, Ref) and isinstance(st.get(v), ArrData) else v) for k, v in fields.items()}
     ctx["pre_refs"] = dict(fields)
+    # representation invariant: stored indices refer to rows of X; non-NaN weights
+    tq = z3.Int("wf_t")
+    for nm in ("idx_", "base_idx_"):
+        a_ = ctx["pre"].get(nm)
+        if isinstance(a_, ArrData):
+            st.assume(z3.ForAll([tq], z3.Implies(z3.And(0 <= tq, tq < to_int(a_.shape[0])), z3.And(0 <= to_int(a_.sel(tq)), to_int(a_.sel(tq)) < N))))
+    for nm in ("sample_weight", "sample_weight_", "base_sample_weight_"):
+        a_ = ctx["pre"].get(nm)
+        if isinstance(a_, ArrData):
+            st.assume(z3.ForAll([tq], z3.Implies(z3.And(0 <= tq, tq < to_int(a_.shape[0])), z3.Not(to_real(a_.sel(tq))[0]))))     # weights are numbers
+    ctx["flags"] = {"unique": bool(unique), "native": bool(native)}
     return ctx
+
+
+def concretizer(ctx, op, **flags):
+    """counter-model -> concrete wrapper state + arguments (replayed by bounded/cex.py family 'index_wrapper')"""
+    def conc(ev):
+        from pyvc import cex
+        pre = ctx["pre"]
+        N = cex.ival(ev, ctx["N"])
+        if N > cex.MAX_N:
+            raise cex.TooBig(N)
+        own_y = [cex.label(ev, ctx["y"].sel(z3.IntVal(i))) for i in range(N)]
+        own_w = None if ctx["w"] is None else [cex.rval(ev, ctx["w"].sel(z3.IntVal(i))) for i in range(N)]
+        get = lambda nm: None if not isinstance(pre.get(nm), ArrData) else cex.arr(ev, pre[nm])
+        case = {"family": "index_wrapper", "sig": "counter-model", "op": op, "N": N, "own_y": own_y, "own_w": own_w,
+                "state": {nm: get(nm) for nm in ("idx_", "y_", "sample_weight_", "base_idx_", "base_y_", "base_sample_weight_")},
+                "add_idx": cex.arr(ev, ctx["a_idx"]), "add_y": None if ctx["a_y"] is None else cex.arr(ev, ctx["a_y"]),
+                "add_w": None if ctx["a_w"] is None else cex.arr(ev, ctx["a_w"])}
+        case.update(ctx["flags"])
+        case.update(flags)
+        return case
+    return conc
 
 
 def new_args(st, ctx, own_weights, y_given=True):
     k = z3.Int("k")
-    st.assume(k >= 0)
+    st.assume(k >= 1)              # check_array rejects an empty index array (that path raises)
     idx = st.alloc(ArrData((k,), fresh_sel("add_idx", "i"), "i"))
     y = st.alloc(ArrData((k,), fresh_sel("add_y", "o"), "o")) if y_given else None
     w = st.alloc(ArrData((k,), fresh_sel("add_w", "f"), "f")) if own_weights == "given" else None
+    if w is not None:
+        tq = z3.Int("nw_t")
+        st.assume(z3.ForAll([tq], z3.Implies(z3.And(0 <= tq, tq < k), z3.Not(to_real(st.get(w).sel(tq))[0]))))     # check_array rejects NaN weights
     ctx.update(k=k, a_idx=st.get(idx), a_y=st.get(y) if y else None, a_w=st.get(w) if w else None)
     return idx, y, w
 
@@ -281,6 +316,7 @@ def unit_fit(weights_mode, y_given, set_base, unique=False):
         idx, y, w = new_args(st, ctx, weights_mode, y_given)
         ctx["args"] = [ctx["self"], idx]
         ctx["kwargs"] = {"y": y, "sample_weight": w, "set_base_clf": set_base}
+        E.default_concretize = concretizer(ctx, "fit", set_base=bool(set_base))
         return ctx
 
     def post(E, ctx, outs):
@@ -331,6 +367,7 @@ def unit_partial_fit(weights_mode, y_given, use_base, set_base, unique):
         idx, y, w = new_args(st, ctx, weights_mode, y_given)
         ctx["args"] = [ctx["self"], idx]
         ctx["kwargs"] = {"y": y, "sample_weight": w, "use_base_clf": use_base, "set_base_clf": set_base}
+        E.default_concretize = concretizer(ctx, "partial_fit", set_base=bool(set_base), use_base=bool(use_base))
         return ctx
 
     def post(E, ctx, outs):
@@ -427,6 +464,7 @@ def unit_partial_fit_native(weights_mode, y_given, use_base, set_base):
         idx, y, w = new_args(st, ctx, weights_mode, y_given)
         ctx["args"] = [ctx["self"], idx]
         ctx["kwargs"] = {"y": y, "sample_weight": w, "use_base_clf": use_base, "set_base_clf": set_base}
+        E.default_concretize = concretizer(ctx, "partial_fit", set_base=bool(set_base), use_base=bool(use_base))
         return ctx
 
     def post(E, ctx, outs):
